@@ -209,22 +209,6 @@ def check_c(ctx, facts):
             ok = False
     if ok:
         ctx.ok('C10.c', 'register-once', 'every clockable leaf: exactly one addClockable(leaf) on the simulator of getObjectClockDriver(leaf)')
-    # getOrCreateClockDriverSimulator
-    g = facts.lookup(sim, 'getOrCreateClockDriverSimulator')
-    if g is None:
-        ctx.error('C10.c', 'anchor getOrCreateClockDriverSimulator not found')
-    else:
-        p = [a.arg for a in g.args.args if a.arg != 'self']
-        rets = [r for r in ast.walk(g) if isinstance(r, ast.Return)]
-        stores = [n for n in ast.walk(g) if isinstance(n, ast.Assign) and any(isinstance(t, ast.Subscript) and norm(t.value) == 'self.clockDrivers' for t in n.targets)]
-        ok2 = bool(p) and rets and all(r.value is not None and norm(r.value) == 'self.clockDrivers[%s]' % p[0] for r in rets) \
-            and stores and all(norm(t.slice) == p[0] for s in stores for t in s.targets if isinstance(t, ast.Subscript)) \
-            and all(isinstance(s.value, ast.Call) and norm(s.value.func) == 'ClockDriverSimulator' and [norm(a) for a in s.value.args] == [p[0]] for s in stores)
-        if ok2:
-            ctx.ok('C10.c', 'driver-simulator-keyed-by-driver', 'looked up / created under the driver key')
-        else:
-            ctx.violation('C10.c', 'driver-simulator-keyed-by-driver', 'per-driver simulator is not looked up / created under its own driver key',
-                          '%s:Simulator.getOrCreateClockDriverSimulator' % SIM, witness=dict(configuration='two clock drivers'))
     cd = facts.cls('ClockDriver', BASE)
     ident = [m for k in facts.mro(cd) for m in ('__eq__', '__hash__') if m in k.methods]
     if ident:
@@ -355,7 +339,93 @@ def check_e(ctx, facts):
                       '%s:HWSystem.__init__' % BASE)
 
 
+def check_f(ctx, facts):
+    """C10.f: registration and lookup evaluated on elaborated hierarchies (structure-only code, hv/elab.py)"""
+    from ..elab import ElabError, ElabRaise, PyExc, ObjV
+    from ..netlist import Design, NetError
+    where = '%s / %s' % (SIM, BASE)
+    try:
+        D = Design(facts)
+        el = D.el
+        cdc = el.find_class('ClockDriver', BASE)
+        sc = el.find_class('Simulator', SIM)
+        # --- per-driver table: same driver -> same simulator, different drivers (even with equal names) -> different ones
+        sim = ObjV(sc)
+        sim.attrs['clockDrivers'] = {}
+        d1 = el.instantiate(cdc, ['clk'], {})
+        d2 = el.instantiate(cdc, ['clk'], {})
+        g = lambda d: el.call(el.getattr_(sim, 'getOrCreateClockDriverSimulator'), [d], {}, {})
+        s1, s1b, s2 = g(d1), g(d1), g(d2)
+        tab = sim.attrs['clockDrivers']
+        if s1 is not s1b or s1 is s2 or not isinstance(s1, ObjV) or s1.attrs.get('driver') is not d1 or s2.attrs.get('driver') is not d2 \
+                or len(tab) != 2 or tab.get(d1) is not s1 or tab.get(d2) is not s2:
+            ctx.violation('C10.f', 'driver-table', 'the per-driver table does not give each clock driver its own simulator, created once and kept under that driver', where,
+                          witness=dict(scenario='lookup(d1), lookup(d1), lookup(d2) with two drivers of equal name'))
+        else:
+            ctx.ok('C10.f', 'driver-table', 'lookup(d1) twice returns one simulator for d1; d2 gets its own; both stored under their driver')
+        # --- hierarchy: sys(D0) -> A(own DA) -> inner leaf ; sys -> B (no own driver) -> leaf ; gated driver on A
+        en = D.wire('en')
+        a, b = D.wire('a', 2), D.wire('b', 2)
+        A = D.make('DelayLine', 'A', a, None, None, D.wire('ra', 2), 2)
+        B = D.make('DelayLine', 'B', b, None, None, D.wire('rb', 2), 1)
+        C = D.make('Reg', 'C', a, D.wire('rc', 2))
+        d0 = D.sys.attrs['clockDriver']
+        dA = el.instantiate(cdc, ['gated'], dict(base=d0, enable=en))
+        A.attrs['clockDriver'] = dA
+        look = el.eval_name('getObjectClockDriver', BASE)
+        regsA = [x for x in A.attrs['children'].values() if x.cinfo.name == 'Reg']
+        regsB = [x for x in B.attrs['children'].values() if x.cinfo.name == 'Reg']
+        exp = [(regsA[0], dA, 'leaf below a block with its own driver'), (A, dA, 'block with its own driver'), (regsB[0], d0, 'leaf below a block without driver'), (C, d0, 'leaf directly below the system')]
+        okl = True
+        for obj, want, what in exp:
+            got = el.call(look, [obj], {}, {})
+            if got is not want:
+                okl = False
+                ctx.violation('C10.f', 'lookup:%s' % what, 'the clock-driver lookup of a %s returns %s' % (what, 'another driver' if isinstance(got, ObjV) else repr(got)), where,
+                              witness=dict(configuration='sys(D0) > A(own gated driver) > Reg ; sys > B > Reg ; sys > Reg'))
+        orphan = ObjV(el.find_class('Logic', BASE))
+        orphan.attrs.update(dict(parent=None, clockDriver=None, name='orphan'))
+        try:
+            r = el.call(look, [orphan], {}, {})
+            if isinstance(r, ObjV):
+                okl = False
+                ctx.violation('C10.f', 'lookup:orphan', 'a block without parent and without driver gets a driver from somewhere', where)
+        except (ElabRaise, PyExc):
+            pass
+        if okl:
+            ctx.ok('C10.f', 'lookup-scenarios', 'own driver / nearest ancestor / system driver / refusal for an orphan')
+        # --- registration through the interpreted sorter: each clockable leaf once, under its nearest ancestor's driver; re-sort does not duplicate
+        sim = ObjV(sc)
+        sim.attrs['sys'] = D.sys
+        for rnd_ in (1, 2):
+            el.steps = 0
+            el.call(el.getattr_(sim, 'topologicalSort'), [], {}, {})
+        tab = sim.attrs['clockDrivers']
+        reg = {}
+        for drv, cds in tab.items():
+            for o in cds.attrs.get('clockables', []):
+                reg.setdefault(o.oid, []).append(drv)
+        bad = None
+        for lf in D.leaves():
+            if facts.lookup(lf.cinfo, 'clock') is None:
+                continue
+            want = dA if any(lf is x for x in regsA) else d0
+            got = reg.get(lf.oid, [])
+            if len(got) != 1 or got[0] is not want:
+                bad = 'clockable leaf %s is registered %d time(s)%s' % (lf.attrs.get('name'), len(got), '' if len(got) != 1 else ' under the wrong driver')
+        if bad:
+            ctx.violation('C10.f', 'registration', bad + ' (after sorting twice)', where, witness=dict(configuration='gated sub-block next to ungated blocks; getSimulator() twice'))
+        else:
+            ctx.ok('C10.f', 'registration', 'after two sorts every clockable leaf is registered exactly once under the driver of its nearest ancestor (2 domains)')
+        return True
+    except (ElabError, NetError, PyExc, ElabRaise) as e:
+        ctx.note('C10.f scenarios not evaluable: %s' % str(e)[:120])
+        return False
+
+
 def run(ctx, sm, facts):
+    ctx.rule('C10.f', 'driver table, lookup and registration evaluated on an elaborated two-domain hierarchy')
+    scen = check_f(ctx, facts)
     ctx.rule('C10.e', 'ClockDriver keeps enable/base/wire; blocks start with no own driver; HWSystem installs its driver')
     check_e(ctx, facts)
     ctx.rule('C10.a', 'driver loop decision table: clockAll of that driver exactly once iff enable is None or non-zero; gated path continues')
@@ -363,8 +433,15 @@ def run(ctx, sm, facts):
     ctx.rule('C10.c', 'topologicalSort resets the table and registers each clockable leaf once under getObjectClockDriver(leaf)')
     ctx.rule('C10.d', 'getObjectClockDriver decision table: own, else parent (recursive), else refuse')
     check_a(ctx, facts)
+    nerr = len(ctx.errors)
+    nv = len(ctx.violations)
     check_c(ctx, facts)
     check_d(ctx, facts)
+    if scen and not any(v['rule'] == 'C10.f' for v in ctx.violations):
+        # registration / lookup clauses are decided by the scenarios; shape rules that cannot read a rewritten function do not raise an error
+        for e in ctx.errors[nerr:]:
+            ctx.note('shape rule not evaluable (%s); clause decided by C10.f scenarios' % e[:90])
+        ctx.errors[nerr:] = [e for e in ctx.errors[nerr:] if not (e.startswith('C10.c') or e.startswith('C10.d'))]
     ctx.not_decided.append('"state unchanged when gated" as such: it follows from C05.a (clock() has no immediate effect on wires) '
                            'plus clockAll being the only caller of clock() (C05.b), both checked there')
 
